@@ -88,7 +88,7 @@ def _item(i, has_name, name, n_tags):
 
 
 for _n, _r in [("get_item", Resp(200, {"id": 1, "displayName": "n", "tags": ["t"]})), ("list_items", Resp(200, [{"id": 1}])), ("get_alias", Resp(200, [{"id": 1}])),
-               ("upsert_item", Resp(201, {"code": "c"})), ("get_with_default", Resp(200, {"id": 1})), ("get_shape", Resp(200, {"r": 1})),
+               ("upsert_item", Resp(201, {"code": "c"})), ("upsert_reversed", Resp(201, {"code": "c"})), ("get_flavours", Resp(200, {"code": "c"}, ctype="application/hal+json")), ("get_with_default", Resp(200, {"id": 1})), ("get_shape", Resp(200, {"r": 1})),
                ("get_shape", Resp(200, {"side": 1}))]:
     try:
         call(_n, _r)
@@ -363,3 +363,52 @@ def kf_return_annotation(which: int, i: int, code: str) -> bool:
 
 # kf_* conditions probe listed known findings (see /verif/known_findings.json): label of the finding each one witnesses
 KNOWN = {"kf_return_annotation": lambda which, i, code: "secondary-2xx-not-in-annotation"}
+
+
+def ob_declaration_order_of_successes(which: int, i: int, code: str) -> bool:
+    """
+    pre: 0 <= which <= 2 and len(code) <= 2
+    post: _
+    """
+    # the same responses as upsert_item / maybe_item, declared lower-priority status first
+    if which == 0:
+        v, _ = call("upsert_reversed", Resp(200, {"id": i}))
+        return isinstance(v, Item) and _norm(U(v)) == {"id": i}
+    if which == 1:
+        v, _ = call("upsert_reversed", Resp(201, {"code": code}))
+        return isinstance(v, Other) and _norm(U(v)) == _norm({"code": code})
+    v, _ = call("nothing_or_item", Resp(200, {"id": i}))
+    return isinstance(v, Item) and _norm(U(v)) == {"id": i}
+
+
+def tw_declaration_order_of_successes(which: int, i: int, code: str) -> bool:
+    """
+    pre: 0 <= which <= 2 and len(code) <= 2
+    post: _
+    """
+    call("upsert_reversed", Resp(200, {"id": i}))
+    return False
+
+
+CT_HAL = ["application/hal+json", "application/hal+json; charset=utf-8", "Application/HAL+JSON"]
+
+
+def ob_json_flavours(hal: bool, c: int, i: int, code: str) -> bool:
+    """
+    pre: 0 <= c <= 2 and len(code) <= 2
+    post: _
+    """
+    if hal:
+        v, _ = call("get_flavours", Resp(200, {"code": code}, ctype=CT_HAL[c]))
+        return isinstance(v, Other) and _norm(U(v)) == _norm({"code": code})
+    v, _ = call("get_flavours", Resp(200, {"id": i}, ctype=CT_JSON[c]))
+    return isinstance(v, Item) and _norm(U(v)) == {"id": i}
+
+
+def tw_json_flavours(hal: bool, c: int, i: int, code: str) -> bool:
+    """
+    pre: 0 <= c <= 2 and len(code) <= 2
+    post: _
+    """
+    call("get_flavours", Resp(200, {"id": i}, ctype=CT_JSON[c]))
+    return False
